@@ -274,7 +274,7 @@ Fixpoint chunk_lookup_tbl (cs : list cas_info) (idx : N) : list (N * (N * N)) :=
 Fixpoint ins_key {V} (e : N * V) (l : list (N * V)) : list (N * V) :=
   match l with
   | [] => [e]
-  | x :: r => if fst e <? fst x then e :: l else x :: ins_key e r
+  | x :: r => if fst e <=? fst x then e :: l else x :: ins_key e r
   end.
 Definition sort_by_key {V} (l : list (N * V)) : list (N * V) := fold_right ins_key [] l.
 
@@ -449,6 +449,24 @@ Definition get_file_info (probe : N -> N -> N -> N -> N -> N) (bs : list N) (ft 
 Definition keyed (key h : hash) : hash := if bytes_eqb key zero_hash then h else hmac h key.
 
 (* chunk_hash_dedup_query_direct *)
+Fixpoint direct_loop (key ch : hash) (cfl n off : N) (fuel : nat) (i : N) (qs' : list hash) (r' : list N) (nb : N)
+  : lookup_result (option (N * seg)) :=
+  match fuel with
+  | O => IoError
+  | S f =>
+      if off + i =? n then Found (Some (i, mkSeg ch cfl nb off (off + i)))
+      else match parse_chunk r' with
+           | None => IoError
+           | Some (c, r'') =>
+               match qs' with
+               | [] => Found (Some (i, mkSeg ch cfl nb off (off + i)))
+               | q :: qr => if bytes_eqb (ce_hash c) (keyed key q)
+                            then direct_loop key ch cfl n off f (i + 1) qr r'' (nb + ce_bytes c)
+                            else Found (Some (i, mkSeg ch cfl nb off (off + i)))
+               end
+           end
+  end.
+
 Definition dedup_direct (bs : list N) (ft : footer) (qs : list hash) (cas_idx off : N) : lookup_result (option (N * seg)) :=
   match qs with
   | [] => Found None
@@ -456,28 +474,12 @@ Definition dedup_direct (bs : list N) (ft : footer) (qs : list hash) (cas_idx of
       match de_CASChunkSequenceHeader (skipn (N.to_nat (ft_cas_info_offset ft + 48 * cas_idx)) bs) with
       | None => IoError
       | Some ((ch, cfl, n, _, _), r) =>
-          let r := skipn (N.to_nat (48 * off)) r in
+          let r := skipn (48 * N.to_nat off) r in
           match parse_chunk r with
           | None => IoError
           | Some (c0, r1) =>
               if negb (bytes_eqb (ce_hash c0) (keyed (ft_key ft) q0)) then Found None
-              else
-                (fix go (fuel : nat) (i : N) (qs' : list hash) (r' : list N) (nb : N) : lookup_result (option (N * seg)) :=
-                   match fuel with
-                   | O => IoError
-                   | S f =>
-                       if off + i =? n then Found (Some (i, mkSeg ch cfl nb off (off + i)))
-                       else match parse_chunk r' with
-                            | None => IoError
-                            | Some (c, r'') =>
-                                match qs' with
-                                | [] => Found (Some (i, mkSeg ch cfl nb off (off + i)))
-                                | q :: qr => if bytes_eqb (ce_hash c) (keyed (ft_key ft) q)
-                                             then go f (i + 1) qr r'' (nb + ce_bytes c)
-                                             else Found (Some (i, mkSeg ch cfl nb off (off + i)))
-                                end
-                            end
-                   end) (S (length qs)) 1 qrest r1 (ce_bytes c0)
+              else direct_loop (ft_key ft) ch cfl n off (S (length qs)) 1 qrest r1 (ce_bytes c0)
           end
       end
   end.
@@ -514,3 +516,109 @@ Definition export_keyed (files : list file_info) (cass : list cas_info) (key : h
   let files' := if incl_files then files else [] in
   serialize_with files' cass' (if incl_chunk_tbl then sort_by_key (chunk_lookup_tbl cass' 0) else [])
                  incl_files incl_cas_tbl key created expiry.
+
+(* ---- record-level view of chunk_hash_dedup_query_direct (what it computes once the block is parsed) ---- *)
+Fixpoint run_len (key : hash) (chs : list chunk_ent) (qs : list hash) : nat :=
+  match chs, qs with
+  | c :: cr, q :: qr => if bytes_eqb (ce_hash c) (keyed key q) then S (run_len key cr qr) else O
+  | _, _ => O
+  end.
+Definition direct_rec (key : hash) (c : cas_info) (qs : list hash) (off : N) : option (N * seg) :=
+  let tail := skipn (N.to_nat off) (ci_chunks c) in
+  match run_len key tail qs with
+  | O => None
+  | S k => let run := firstn (S k) tail in
+           Some (N.of_nat (S k), mkSeg (ci_hash c) (ci_flags c) (sum_bytes32 run) off (off + N.of_nat (S k)))
+  end.
+
+(* ---- on-disk set operations (set_operations.rs) at the record level ---- *)
+Inductive superset := SuperA | SuperB | SupNeither | SupEqual.
+Definition compare_flag_superset (f0 f1 : N) : superset :=
+  if f0 =? f1 then SupEqual
+  else if N.land f0 f1 =? f1 then SuperA
+  else if N.land f1 f0 =? f0 then SuperB
+  else SupNeither.
+
+(* the Merge branch: a fresh header (flags rebuilt from the two booleans, _unused reset), A's segments,
+   verification / metadata from whichever side has them (A first) *)
+Definition merge_disk (a b : file_info) : file_info :=
+  let hv := has_verif (fi_flags a) || has_verif (fi_flags b) in
+  let he := has_ext (fi_flags a) || has_ext (fi_flags b) in
+  mkFI (fi_hash a)
+       (N.lor MDB_DEFAULT_FILE_FLAG (N.lor (if hv then MDB_FILE_FLAG_WITH_VERIFICATION else 0) (if he then MDB_FILE_FLAG_WITH_METADATA_EXT else 0)))
+       0 (fi_segs a)
+       (if hv then (if has_verif (fi_flags a) then fi_verif a else fi_verif b) else [])
+       (if he then (if has_ext (fi_flags a) then fi_ext a else fi_ext b) else None).
+
+Fixpoint union_files (fuel : nat) (a b : list file_info) : list file_info :=
+  match fuel with
+  | O => []
+  | S f =>
+      match a, b with
+      | [], _ => b
+      | _, [] => a
+      | x :: a', y :: b' =>
+          match hash_cmp (fi_hash x) (fi_hash y) with
+          | Lt => x :: union_files f a' b
+          | Gt => y :: union_files f a b'
+          | Eq => (match compare_flag_superset (fi_flags x) (fi_flags y) with
+                   | SuperA | SupEqual => x
+                   | SuperB => y
+                   | SupNeither => merge_disk x y
+                   end) :: union_files f a' b'
+          end
+      end
+  end.
+Fixpoint union_cas (fuel : nat) (a b : list cas_info) : list cas_info :=
+  match fuel with
+  | O => []
+  | S f =>
+      match a, b with
+      | [], _ => b
+      | _, [] => a
+      | x :: a', y :: b' =>
+          match hash_cmp (ci_hash x) (ci_hash y) with
+          | Lt => x :: union_cas f a' b
+          | Gt => y :: union_cas f a b'
+          | Eq => x :: union_cas f a' b'
+          end
+      end
+  end.
+(* difference = the records of b whose key is not in a (merge walk over two sorted lists) *)
+Fixpoint diff_files (fuel : nat) (a b : list file_info) : list file_info :=
+  match fuel with
+  | O => []
+  | S f =>
+      match a, b with
+      | _, [] => []
+      | [], _ => b
+      | x :: a', y :: b' =>
+          match hash_cmp (fi_hash x) (fi_hash y) with
+          | Lt => diff_files f a' b
+          | Gt => y :: diff_files f a b'
+          | Eq => diff_files f a' b'
+          end
+      end
+  end.
+Fixpoint diff_cas (fuel : nat) (a b : list cas_info) : list cas_info :=
+  match fuel with
+  | O => []
+  | S f =>
+      match a, b with
+      | _, [] => []
+      | [], _ => b
+      | x :: a', y :: b' =>
+          match hash_cmp (ci_hash x) (ci_hash y) with
+          | Lt => diff_cas f a' b
+          | Gt => y :: diff_cas f a b'
+          | Eq => diff_cas f a' b'
+          end
+      end
+  end.
+
+Definition disk_shard_bytes (files : list file_info) (cass : list cas_info) : list N :=
+  serialize_with files cass (sort_by_key (chunk_lookup_tbl cass 0)) true true zero_hash 0 u64max.
+Definition disk_union (fa fb : list file_info) (ca cb : list cas_info) : list N :=
+  disk_shard_bytes (union_files (length fa + length fb) fa fb) (union_cas (length ca + length cb) ca cb).
+Definition disk_difference (fa fb : list file_info) (ca cb : list cas_info) : list N :=
+  disk_shard_bytes (diff_files (length fa + length fb) fa fb) (diff_cas (length ca + length cb) ca cb).
